@@ -8,7 +8,7 @@
    [react_spec] is the property text as a loop; [agent_run] is the superstep-level model of the
    graph NewAgent builds.  [step_exact checker md s] = in mode [md] the consumer of the model's
    output receives the scripted reply and the checker reports "tool calls" iff it has some. *)
-From Eino Require Import Base.Util Model.Tools Model.Graph Model.React Model.ReactGraph Proofs.React Proofs.ReactExt Proofs.ReactGraph.
+From Eino Require Import Base.Util Model.Tools Model.Graph Model.React Model.ReactGraph Model.Host Proofs.React Proofs.ReactExt Proofs.ReactGraph Proofs.Host.
 Local Open Scope nat_scope.
 Local Open Scope string_scope.
 
@@ -221,6 +221,28 @@ Theorem generate_stream_agree_with_exact_checker :
 Proof. exact generate_stream_agree_exact_checker. Qed.
 Print Assumptions generate_stream_agree_with_exact_checker.
 
+(* the default first-chunk checker is exact on a reply exactly when no chunk with non-empty content
+   (and no tool-call fragment) comes before the first chunk carrying a tool-call fragment ... *)
+Theorem default_checker_exact_iff_tool_calls_first :
+  forall chunks content calls,
+    concat_chunks chunks = Some (content, calls) ->
+    (default_checker chunks = nonempty calls <-> content_before_toolcall chunks = false).
+Proof. exact default_checker_exact_iff. Qed.
+Print Assumptions default_checker_exact_iff_tool_calls_first.
+
+(* ... so with the DEFAULT checker Generate and Stream agree on every script outside the known
+   finding: [tool_calls_first] is the named hypothesis that carves F-C18 out (its negation is the
+   structural part of the finding's signature; the correspondence check compares the harness's
+   classification of every scripted reply with [content_before_toolcall]) *)
+Theorem generate_stream_agree_with_default_checker :
+  forall tn rd rd_nonempty modifier visible script max_steps input,
+    Forall chunking_valid script ->
+    Forall tool_calls_first script ->
+    agent_run tn rd rd_nonempty modifier visible default_checker Stream max_steps script input
+    = agent_run tn rd rd_nonempty modifier visible default_checker Generate max_steps script input.
+Proof. exact generate_stream_agree_default. Qed.
+Print Assumptions generate_stream_agree_with_default_checker.
+
 (* KNOWN FINDING F-C18: the default first-chunk checker is not exact.  Witness: the model streams
    "Let me check. " and then the tool call; the chunks do concatenate to the scripted message,
    Generate runs the tool and answers "The answer is 42", Stream returns the tool-calling
@@ -234,6 +256,64 @@ Theorem default_checker_refuted :
   /\ w_run exact_checker Stream = w_run exact_checker Generate.
 Proof. exact witness_refutes_default. Qed.
 Print Assumptions default_checker_refuted.
+
+(* ---- stretch: the host multi-agent (flow/agent/multiagent/host), same mechanism without a loop ---- *)
+(* the graph is the specification whenever the checker is exact on the emitted chunks ... *)
+Theorem host_refines_spec :
+  forall answer prompt specs checker md reply input,
+    step_exact checker md reply ->
+    host_run answer prompt specs checker md reply input = host_spec answer prompt specs reply input.
+Proof. exact host_refines. Qed.
+Print Assumptions host_refines_spec.
+
+(* ... Generate and Stream agree under checker_exact; with the default checker whenever the reply
+   does not stream content before its tool call *)
+Theorem host_generate_stream_agree :
+  forall answer prompt specs checker reply input,
+    (forall content calls, checker [whole_chunk content calls] = nonempty calls) ->
+    chunking_valid reply -> checker_exact checker reply ->
+    host_run answer prompt specs checker Stream reply input
+    = host_run answer prompt specs checker Generate reply input.
+Proof. exact Proofs.Host.host_generate_stream_agree. Qed.
+Print Assumptions host_generate_stream_agree.
+
+Theorem host_generate_stream_agree_with_default_checker :
+  forall answer prompt specs reply input,
+    chunking_valid reply -> tool_calls_first reply ->
+    host_run answer prompt specs default_checker Stream reply input
+    = host_run answer prompt specs default_checker Generate reply input.
+Proof. exact host_generate_stream_agree_default. Qed.
+Print Assumptions host_generate_stream_agree_with_default_checker.
+
+(* the specification: a reply without tool call is the answer; a reply with exactly one tool call
+   naming a specialist hands the ORIGINAL messages (behind the specialist's own system prompt, if
+   any) to that specialist, reports the hand-off, and returns the specialist's result; several
+   tool calls or an unknown name are errors and nobody runs *)
+Theorem host_direct_answer :
+  forall answer prompt specs content chunks input,
+    host_spec answer prompt specs (SMsg content [] chunks) input
+    = mkHTrace (host_input prompt input) None [] (HFinal (assistant content [])).
+Proof. exact host_answers_directly. Qed.
+Print Assumptions host_direct_answer.
+
+Theorem host_hand_off :
+  forall answer prompt specs content c chunks input s,
+    find_spec (c_name c) specs = Some s ->
+    let t := host_spec answer prompt specs (SMsg content [c] chunks) input in
+    ht_handoff t = Some (hs_name s, spec_input s input)
+    /\ ht_events t = [(c_name c, c_args c)]
+    /\ (forall m, answer (hs_name s) (spec_input s input) = Ok m -> ht_out t = HFinal m)
+    /\ exists pre, spec_input s input = (pre ++ input)%list /\ List.length pre <= 1.
+Proof. exact host_hands_off. Qed.
+Print Assumptions host_hand_off.
+
+Theorem host_rejects_other_replies :
+  forall answer prompt specs content calls chunks input,
+    (2 <= List.length calls \/ exists c, calls = [c] /\ find_spec (c_name c) specs = None) ->
+    exists e, ht_out (host_spec answer prompt specs (SMsg content calls chunks) input) = HFailed e
+              /\ ht_handoff (host_spec answer prompt specs (SMsg content calls chunks) input) = None.
+Proof. exact host_rejects. Qed.
+Print Assumptions host_rejects_other_replies.
 
 (* ---- non-vacuity ----------------------------------------------------------------------- *)
 Definition ex_tn (calls : list call) : res (list tmsg) :=
@@ -252,8 +332,12 @@ Definition ex_input : list msg := [mkMsg RUser "q" [] ""].
    in the first non-empty chunk) in both modes ... *)
 Example step_exact_nonvacuous :
   Forall (step_exact default_checker Stream) ex_script /\ Forall (step_exact default_checker Generate) ex_script
-  /\ Forall chunking_valid ex_script /\ Forall (checker_exact default_checker) ex_script.
-Proof. vm_compute. repeat split; repeat constructor. Qed.
+  /\ Forall chunking_valid ex_script /\ Forall (checker_exact default_checker) ex_script
+  /\ Forall tool_calls_first ex_script /\ ~ Forall tool_calls_first w_script.
+Proof.
+  vm_compute. repeat split; repeat constructor.
+  intro H. inversion H as [|? ? H1 _]. discriminate H1.
+Qed.
 (* ... the run is two rounds ending in a return-directly result, identically in both modes *)
 Example run_nonvacuous :
   let t := agent_run ex_tn ex_rd true (fun h => h) (fun _ => true) default_checker Stream 13 ex_script ex_input in
@@ -291,4 +375,14 @@ Example engine_supersteps_nonvacuous :
      = Some (agent_run ex_tn ex_rd true (fun h => h) (fun _ => true) default_checker Stream 4 ex_script ex_input)
   /\ option_map t_out (engine_trace ex_tn ex_rd true (fun h => h) (fun _ => true) default_checker Stream 4 ex_script ex_input)
      = Some (Failed EStepLimit).
+Proof. vm_compute. repeat split; reflexivity. Qed.
+Example host_nonvacuous :
+  let specs := [mkHSpec "coder" (Some "You are the coder."); mkHSpec "writer" None] in
+  let answer := fun (n : string) (i : list msg) => Ok (assistant (n ++ " done") []) in
+  let reply := SMsg "" [mkCall "h0" "coder" "{}"] [mkChunk "" []; mkChunk "" [mkFrag 0 "h0" "coder" "{}"]] in
+  step_exact default_checker Stream reply /\ find_spec "coder" specs = Some (mkHSpec "coder" (Some "You are the coder."))
+  /\ host_run answer "" specs default_checker Stream reply ex_input
+     = mkHTrace (mkMsg RSystem default_host_prompt [] "" :: ex_input)
+                (Some ("coder", mkMsg RSystem "You are the coder." [] "" :: ex_input))
+                [("coder", "{}")] (HFinal (assistant "coder done" [])).
 Proof. vm_compute. repeat split; reflexivity. Qed.
